@@ -766,7 +766,8 @@ template<RuleLocal::erule effrule>
 std::vector<int> GridLocalPolynomial::getSubGraph(std::vector<int> const &point) const{
     std::vector<int> graph, p = point;
     std::vector<bool> used(points.getNumIndexes(), false);
-    int max_1d_kids = RuleLocal::getMaxNumKids<effrule>();
+    int num_1d_kids = RuleLocal::getMaxNumKids<effrule>();
+    int max_1d_kids = num_1d_kids + 1; // the last slot is for the step-kid, the coefficient of a point depends on its step-parent too
     int max_kids = max_1d_kids * num_dimensions;
 
     std::vector<int> monkey_count(1, 0), monkey_tail;
@@ -775,7 +776,9 @@ std::vector<int> GridLocalPolynomial::getSubGraph(std::vector<int> const &point)
         if (monkey_count.back() < max_kids){
             int dim = monkey_count.back() / max_1d_kids;
             monkey_tail.push_back(p[dim]);
-            p[dim] = RuleLocal::getKid<effrule>(monkey_tail.back(), monkey_count.back() % max_1d_kids);
+            int kid_number = monkey_count.back() % max_1d_kids;
+            p[dim] = (kid_number < num_1d_kids) ? RuleLocal::getKid<effrule>(monkey_tail.back(), kid_number)
+                                                : RuleLocal::getStepKid<effrule>(monkey_tail.back());
             int slot = points.getSlot(p);
             if ((slot == -1) || used[slot]){ // this kid is missing
                 p[dim] = monkey_tail.back();
